@@ -1,7 +1,9 @@
 // Scheduled correspondence harness for conc.ConcurrentQueue (C18).
 //
 // Config   [neg abs ninit]  NewConcurrentQueue(maxConcurrency = neg==1 ? -abs : abs, ninit initial jobs)
-// Events   [1 n]    Enqueue(n jobs) in a new actor (parks at the HoldLock entry)
+// Events   [1 n]    Enqueue(n jobs) in a new actor (parks at the HoldLock entry); every fifth job the Enqueue events of
+//
+//	         a history create is a NIL entry (see the job type: to the model it is a job that returns at once)
 //
 //	[2 k]    WaitIdle(ctx, errCh) in a new actor; k=1: errCh is a buffered channel, k=0: nil
 //	[3 k]    WatchState(ctx, nil, cb) in a new actor; k=1: cb non-nil, k=0: nil (every second invocation of cb calls
@@ -65,10 +67,19 @@ type job struct {
 	returns atomic.Int64
 	wa      *ctl.Actor  // pre-allocated actor for the goroutine spawned for this job (used only if one is)
 	started atomic.Bool // some goroutine entered this job first (it is then named after this job)
+
+	// a NIL job (Enqueue accepts nil entries: the worker skips them).  To the model it is a job whose function returns
+	// at once: the harness presents it as an ordinary job that is "inside its function" from the moment a worker takes
+	// it until the event [6 w] that lets it return, during which the real goroutine is already waiting at the gate of its
+	// next section.  Which nil job a worker took is inferred from the FIFO order (the lowest enqueued one not yet taken).
+	isNil            bool
+	taken            bool
+	fakeEnt, fakeRet uint64
 }
 
 type wdata struct {
-	cur atomic.Pointer[job]
+	cur  atomic.Pointer[job]
+	virt *job // the nil job this worker is presented as being inside of
 }
 
 type adata struct {
@@ -97,6 +108,7 @@ type sys struct {
 	nsect   int
 	limit   int
 	nctx    int // context-taking calls so far
+	nenq    int // jobs created by Enqueue events so far: every fifth one is a nil job
 }
 
 var flavourNames = [3]string{"plain", "deadline_like", "with_cause"}
@@ -153,8 +165,18 @@ func newSys(w *hist.W, cfg []uint64) *sys {
 	s := &sys{c: ctl.New(), w: w, gid2w: map[int]*ctl.Actor{}}
 	s.c.Adopt = func(pkg string, site int, obj any) *ctl.Actor {
 		s.mu.Lock()
+		defer s.mu.Unlock()
 		a := s.gid2w[ctl.Gid()]
-		s.mu.Unlock()
+		if a == nil && site == 0 && !s.tearing.Load() {
+			// an unknown goroutine at a HoldLock entry: a fresh executeJob goroutine that was handed a nil job
+			if j := s.nextNil(); j != nil {
+				j.taken, j.fakeEnt = true, 1
+				j.started.Store(true)
+				j.wa.Data.(*wdata).virt = j
+				a = j.wa
+				s.gid2w[ctl.Gid()] = a
+			}
+		}
 		return a
 	}
 	s.c.ShouldPark = func(a *ctl.Actor, pkg string, site int, obj any) bool { return site == 0 }
@@ -174,6 +196,16 @@ func newSys(w *hist.W, cfg []uint64) *sys {
 	s.q = conc.NewConcurrentQueue(lim, fns...)
 	synctest.Wait()
 	return s
+}
+
+// nextNil returns the first enqueued nil job no worker has taken yet.
+func (s *sys) nextNil() *job {
+	for _, j := range s.jobs {
+		if j.isNil && !j.taken {
+			return j
+		}
+	}
+	return nil
 }
 
 func resCode(err error) int {
@@ -220,6 +252,8 @@ func (s *sys) status() []uint64 {
 		switch {
 		case !j.started.Load():
 			wc = 0
+		case j.wa.Data.(*wdata).virt != nil:
+			wc = 10 + uint64(j.wa.Data.(*wdata).virt.id)
 		case j.wa.Parked():
 			wc = 1
 		case j.wa.InUser() != 0:
@@ -227,7 +261,7 @@ func (s *sys) status() []uint64 {
 		default:
 			wc = 8
 		}
-		out = append(out, uint64(j.entries.Load()), uint64(j.returns.Load()), wc)
+		out = append(out, uint64(j.entries.Load())+j.fakeEnt, uint64(j.returns.Load())+j.fakeRet, wc)
 	}
 	return out
 }
@@ -251,7 +285,13 @@ func (s *sys) exec(ev []uint64) (obs []uint64, ok bool) {
 		for i := 0; i < n; i++ {
 			j := s.newJob()
 			d.batch = append(d.batch, j)
-			fns[i] = s.fn(j)
+			s.nenq++
+			if s.nenq%5 == 3 {
+				j.isNil = true // fns[i] stays nil
+				s.w.Count("ev.enqueue.nil_job", 1)
+			} else {
+				fns[i] = s.fn(j)
+			}
 		}
 		a := s.c.NewActor(kEnq)
 		a.Data = d
@@ -340,16 +380,38 @@ func (s *sys) exec(ev []uint64) (obs []uint64, ok bool) {
 			return nil, false
 		}
 		j := s.jobs[ev[1]]
-		if !j.started.Load() || !j.wa.Parked() {
+		wd := j.wa.Data.(*wdata)
+		if !j.started.Load() || !j.wa.Parked() || wd.virt != nil {
 			return nil, false
 		}
 		s.nsect++
+		before := wd.cur.Load()
+		nent := int64(0)
+		if before != nil {
+			nent = before.entries.Load()
+		}
 		s.c.Step(j.wa)
+		if j.wa.Parked() && wd.cur.Load() == before && (before == nil || before.entries.Load() == nent) {
+			// the worker is back at a gate without having entered a function: it popped a nil job
+			s.mu.Lock()
+			if nj := s.nextNil(); nj != nil {
+				nj.taken, nj.fakeEnt = true, 1
+				wd.virt = nj
+				s.w.Count("sit.worker_popped_nil_job", 1)
+			}
+			s.mu.Unlock()
+		}
 	case ev[0] == 6 && len(ev) == 2:
 		if ev[1] >= uint64(len(s.jobs)) {
 			return nil, false
 		}
 		j := s.jobs[ev[1]]
+		if wd := j.wa.Data.(*wdata); j.started.Load() && wd.virt != nil {
+			// the nil job "returns": the real goroutine is already at the gate of its next section
+			wd.virt.fakeRet = 1
+			wd.virt = nil
+			break
+		}
 		if !j.started.Load() || j.wa.InUser() == 0 {
 			return nil, false
 		}
@@ -434,10 +496,11 @@ func (s *sys) gen(r *rand.Rand, maxActs, maxJobs int) []uint64 {
 		}
 	}
 	for i, j := range s.jobs {
-		if j.started.Load() && j.wa.Parked() {
+		virt := j.wa.Data.(*wdata).virt != nil
+		if j.started.Load() && j.wa.Parked() && !virt {
 			wgates = append(wgates, i)
 		}
-		if j.started.Load() && j.wa.InUser() != 0 {
+		if j.started.Load() && (j.wa.InUser() != 0 || virt) {
 			inJob = append(inJob, i)
 		}
 	}
